@@ -367,6 +367,72 @@ fn abnormal_exit_in_session_mode(seed: u64, rep: &Report) -> Result<(), String> 
     Ok(())
 }
 
+/// A valid cancel keeps working: (a) for a client that stayed connected across a reload that
+/// rebuilt its pool and for one that connected afterwards, (b) for the second and third statement
+/// of one session (the cancel connection itself must not invalidate the requester's key).
+fn cancel_keeps_working(seed: u64, rep: &Report) -> Result<(), String> {
+    let mut rng = Rng::new(seed);
+    let mode = *rng.pick(&["transaction", "session"]);
+    let trigger = *rng.pick(&["reload", "sighup", "none"]);
+    let (mut cell, mut cfg) = simple_cell(&["primary"], 2, mode);
+    cfg.gset("connect_timeout", "5000");
+    cell.start_pgcat(&cfg, &StartOpts::default()).map_err(|e| format!("start: {:?}", e))?;
+    let addr = cell.addr();
+    let port = cell.pg().port;
+    let mut x = conn(&cell, "X")?;
+    let mut cancel_round = |cell: &mut Cell, c: &mut Conn, who: &str, tagq: &str, rep: &Report, when: &str| -> Result<(), String> {
+        c.send(&proto::query(&format!("SELECT 1 {}", tag(who, tagq, "sleep=700")))).map_err(|e| e.to_string())?;
+        if !wait_running(cell, who, 3000) {
+            return Err(format!("{}'s statement never started", who));
+        }
+        let n0 = cell.log.len();
+        send_cancel(&addr, c.pid, c.key).map_err(|e| e.to_string())?;
+        let r = c.read_until_ready(5000).map_err(|(m, e)| format!("{} reply: {:?} {}", who, e, summarize(&m)))?;
+        rep.count("cancels_valid_repeated_or_after_reload", 1);
+        let cs = cancels_since(cell, n0);
+        let cancelled = first_error(&r).map(|e| e.0 == "57014").unwrap_or(false);
+        if !cancelled || cs.is_empty() {
+            rep.violation(
+                &format!("C10|valid_cancel_not_delivered_to_own_running_session|when={}|mode={}", when, mode),
+                &format!("a cancel with {}'s own key while its statement {} was running ({}): reply {}, {} CancelRequests at the server", who, tagq, when, summarize(&r), cs.len()),
+                json!({"seed": seed, "mode": mode, "trigger": trigger, "pgcat_log_tail": cell.pg().log_tail(6)}),
+            );
+        }
+        Ok(())
+    };
+    cancel_round(&mut cell, &mut x, "X", "X.n1", rep, "first_statement")?;
+    cancel_round(&mut cell, &mut x, "X", "X.n2", rep, "second_statement_of_the_session")?;
+    if trigger != "none" {
+        // the pool is rebuilt (pool_size changed)
+        let mut cfg2 = cfg.clone();
+        cfg2.pools[0].users[0].pool_size = 3;
+        let ev0 = cell.pg().events().iter().filter(|e| e.1 == "reload.end").count();
+        cell.pg().rewrite_config(&cfg2.to_toml(port));
+        if trigger == "reload" {
+            let mut a = cell.pg().admin().map_err(|e| format!("admin: {}", e))?;
+            let _ = a.query("RELOAD", 10_000);
+        } else {
+            cell.pg().signal(libc::SIGHUP);
+        }
+        let deadline = now_ns() + 5_000_000_000;
+        while cell.pg().events().iter().filter(|e| e.1 == "reload.end").count() <= ev0 && now_ns() < deadline {
+            sleep_ms(5);
+        }
+        sleep_ms(30);
+        if mode == "transaction" {
+            cancel_round(&mut cell, &mut x, "X", "X.n3", rep, &format!("after_{}_client_connected_before", trigger))?;
+        }
+        let mut y = conn(&cell, "Y")?;
+        cancel_round(&mut cell, &mut y, "Y", "Y.n1", rep, &format!("after_{}_client_connected_after", trigger))?;
+        cancel_round(&mut cell, &mut y, "Y", "Y.n2", rep, &format!("after_{}_second_statement", trigger))?;
+        y.terminate();
+    } else {
+        cancel_round(&mut cell, &mut x, "X", "X.n3", rep, "third_statement_of_the_session")?;
+    }
+    x.terminate();
+    Ok(())
+}
+
 /// Concurrent storm: several clients running sleeps on pool_size 2-3, cancels with valid keys.
 fn storm(seed: u64, rep: &Report) -> Result<(), String> {
     let mut rng = Rng::new(seed);
@@ -508,7 +574,7 @@ pub fn run(tier: &str) -> i32 {
         "C10",
         tier,
         "exploration",
-        "scripted scenario (pool_size 1): cancel with a valid key while the statement runs; keys of idle clients; a stale key while another client runs on the same server connection; random keys; a disconnected client's key; key reuse right after the transaction ended (jitter between cleanup and release); cancel during an autocommit COPY FROM STDIN; during the rollback of a vanished client; key of a client whose task ended on a protocol error in a session-mode pool; plus concurrent cancel storms on pool_size 1-3; oracle = CancelRequest packets logged by the mock (target session, what it was running) joined with the harness's own cancel log; distinct = scenarios x seeds",
+        "scripted scenario (pool_size 1): cancel with a valid key while the statement runs; keys of idle clients; a stale key while another client runs on the same server connection; random keys; a disconnected client's key; key reuse right after the transaction ended (jitter between cleanup and release); cancel during an autocommit COPY FROM STDIN; during the rollback of a vanished client; key of a client whose task ended on a protocol error in a session-mode pool; valid cancels for consecutive statements of one session and after a reload that rebuilt the pool; plus concurrent cancel storms on pool_size 1-3; oracle = CancelRequest packets logged by the mock (target session, what it was running) joined with the harness's own cancel log; distinct = scenarios x seeds",
     );
     let thorough = rep.thorough();
     let n = if thorough { 1500 } else { 60 };
@@ -521,6 +587,8 @@ pub fn run(tier: &str) -> i32 {
             storm(seeds[i].0, &rep)
         } else if i % 6 == 1 {
             abnormal_exit_in_session_mode(seeds[i].0, &rep)
+        } else if i % 6 == 4 {
+            cancel_keeps_working(seeds[i].0, &rep)
         } else {
             scripted(seeds[i].0, seeds[i].1, &rep)
         };
